@@ -22,7 +22,7 @@ def tup(t):
     return "(" + ", ".join(flit(float(x)) for x in t) + ")"
 
 
-def refusing(min_samples):
+def refusing(min_samples, partial=False):
     from sklearn.base import BaseEstimator, RegressorMixin
     from sklearn.exceptions import NotFittedError
 
@@ -42,7 +42,11 @@ def refusing(min_samples):
             if return_std:
                 return np.full(len(X), self.m_), np.full(len(X), self.s_)
             return np.full(len(X), self.m_)
-    return Needs(k=min_samples)
+
+    class NeedsPartial(Needs):
+        def partial_fit(self, X, y, sample_weight=None):
+            return self.fit(X, y)
+    return NeedsPartial(k=min_samples) if partial else Needs(k=min_samples)
 
 
 def run(ctx):
@@ -202,8 +206,51 @@ def run(ctx):
                                       dict(rc, sample_seed=bad, own_random_state=str(own)),
                                       what=f"{name}: sample_y is not reproducible for random_state={bad} (regressor constructed with random_state={own})")
                         break
+    partial_fit_fallback(ctx, rng)
     ctx.sample({"component": "_combine_params", "case": terms[0] if terms else None})
     ctx.extra["exhaustive"] = False
+
+
+def partial_fit_fallback(ctx, rng):
+    """partial_fit histories of the wrappers: after a partial_fit on a batch the wrapped estimator cannot be fitted on (no label at all,
+    or fewer samples than it needs) predict falls back to the documented default (0 without labels, else the label mean of that batch;
+    std 1 / the label std) - whatever an EARLIER, successful partial_fit left behind."""
+    from sklearn.linear_model import SGDRegressor
+    from skactiveml.regressor import SklearnNormalRegressor, SklearnRegressor
+    mks = [("SklearnRegressor[SGD]", lambda s: SklearnRegressor(SGDRegressor(max_iter=50, tol=None, random_state=s), random_state=s), False),
+           ("SklearnRegressor[needs3,partial_fit]", lambda s: SklearnRegressor(refusing(3, partial=True), random_state=s), False),
+           ("SklearnNormalRegressor[needs3,partial_fit]", lambda s: SklearnNormalRegressor(refusing(3, partial=True), random_state=s), True)]
+    for name, mk, normal in mks:
+        for h in range(8 if ctx.is_quick else 60):
+            seed = int(rng.integers(0, 100))
+            X1, y1 = rng.normal(size=(6, 2)), np.round(rng.normal(size=6) * 2 + 3, 1)
+            X2 = rng.normal(size=(4, 2))
+            nlab2 = [0, 0, 1, 2][h % 4]
+            y2 = np.full(4, np.nan)
+            y2[:nlab2] = np.round(rng.normal(size=nlab2) * 2 - 4, 1)
+            if "SGD" in name and nlab2 > 0:
+                continue        # SGD can be fitted on a single labeled sample: no fallback to judge
+            Xq = rng.normal(size=(3, 2))
+            rc = {"regressor": name, "X1": X1.tolist(), "y1": y1.tolist(), "X2": X2.tolist(), "y2": [None if v != v else v for v in y2], "seed": seed}
+            try:
+                with warnings.catch_warnings():
+                    warnings.simplefilter("ignore")
+                    m = mk(seed)
+                    m.partial_fit(X1, y1)
+                    m.partial_fit(X2, y2)
+                    mu = np.asarray(m.predict(Xq), dtype=float)
+                    sd = np.asarray(m.predict(Xq, return_std=True)[1], dtype=float) if normal else None
+            except Exception as e:
+                ctx.violation(name, "exception:" + err_class(e), repr(e)[:300], rc, what=f"{name}: partial_fit / predict raised {err_class(e)} instead of falling back")
+                continue
+            ctx.count("partial_fit_fallback:" + name)
+            ctx.nontriv(("pf", name, X1.tobytes(), y2.tobytes(), seed))
+            exp = 0.0 if nlab2 == 0 else float(np.mean(y2[:nlab2]))
+            if not np.allclose(mu, exp, atol=1e-12):
+                ctx.violation(name, "fallback_mean", f"predict after partial_fit(batch with labels) then partial_fit(batch with {nlab2} labels, not fittable) = {mu.tolist()}, documented fallback {exp}", rc,
+                              what=f"{name}: after a partial_fit the wrapped estimator could not be fitted on, predict returns {mu[0]} instead of the documented default {exp}")
+            elif sd is not None and not (np.all(np.isfinite(sd)) and np.all(sd > 0)):
+                ctx.violation(name, "std_not_finite", f"std {sd.tolist()} after the failed partial_fit", rc, what=f"{name}: std not finite / positive after a partial_fit that could not be fitted")
 
 
 def replay(ctx, path):
